@@ -33,6 +33,9 @@ type Config struct {
 	MaxExecs    int64
 	Iterative   bool // explore bound (0,0,0) first, then grow towards Bounds
 	KeepGoing   bool // do not stop at the first failure signature
+	// AllowDeadlock: an execution in which no thread can run while the main thread has not returned is not
+	// reported (litmus tests that expect it); by default it is a violation.
+	AllowDeadlock bool
 }
 
 // Violation is a failure with the choice list that reproduces it.
@@ -115,7 +118,7 @@ func Explore(cfg Config, body func()) *Report {
 		}
 	}
 
-	opts := Options{MaxSteps: cfg.MaxSteps, TimerBudget: cfg.TimerBudget}
+	opts := Options{MaxSteps: cfg.MaxSteps, TimerBudget: cfg.TimerBudget, AllowDeadlock: cfg.AllowDeadlock}
 	complete := true
 	stop := false
 	for ri, bound := range rounds {
